@@ -37,6 +37,10 @@ m("c05_unlock_does_not_cancel_timer", "C05", DL,
   "\tfuture := l.future.Load().(timeout.Future)\n\tfuture.Cancel()\n\terr := l.dlp.Storage.Delete",
   "\terr := l.dlp.Storage.Delete",
   "Unlock leaves the renewal timer armed (harmless alone: the CAS then fails with ErrNotExist) - control mutant, may legitimately survive")
+m("c05_renewal_uses_put", "C05", DL,
+  "\tr, err := l.dlp.Storage.CasByVersion(context.Background(), kvs.Record{",
+  "\tr, err := l.dlp.Storage.Put(context.Background(), kvs.Record{",
+  "the renewal overwrites instead of compare-and-set: a renewal in flight while Unlock runs re-creates the record (needs Unlock racing a renewal)")
 IM = "kvs/inmem/inmem.go"
 m("c02_inmem_cas_checks_outside_lock", "C02", IM,
   "func (s *service) CasByVersion(ctx context.Context, record kvs.Record) (kvs.Record, error) {\n\ts.lock.Lock()\n\tdefer s.lock.Unlock()\n\tr, ok := s.recs[record.Key]",
